@@ -162,6 +162,10 @@ Proof. intros. split; [constructor | discriminate]. Qed.
 Lemma mok_weaken : forall X (Q1 Q2 : X -> Prop) m, mok Q1 m -> (forall x, Q1 x -> Q2 x) -> mok Q2 m.
 Proof. intros X Q1 Q2 m [H1 H2] H. split; auto. Qed.
 
+Lemma mok_weaken_eq : forall X (Q1 Q2 : X -> Prop) m,
+  mok Q1 m -> (forall x, snd m = ROk x -> Q1 x -> Q2 x) -> mok Q2 m.
+Proof. intros X Q1 Q2 m [H1 H2] H. split; auto. Qed.
+
 Lemma mok_done : forall (Q : value * store -> Prop) a C r,
   sat_cls (rep a) (fst r) = true -> ctx_claim a C = true -> Q r -> mok Q (done a C r).
 Proof.
@@ -683,7 +687,7 @@ Lemma check_if_eq : forall G K ph c ift iff,
   check_stmt R (n_ctor N) G K (ASIf ph c ift iff) =
   if check_expr R G K c then
     match check_block R (n_ctor N) (crefine G (implied c true)) K ift, check_block R (n_ctor N) (crefine G (implied c false)) K iff with
-    | Some Gtr, Some Gfa => let Gj := cjoin Gtr Gfa in
+    | Some Gtr, Some Gfa => let Gj := if blk_ret ift then Gfa else if blk_ret iff then Gtr else cjoin Gtr Gfa in
                             if check_phis Gj ph then Some (set_phis Gj ph) else None
     | _, _ => None
     end
@@ -894,10 +898,17 @@ Proof.
         eapply mok_bind; [apply mok_liftr; intros b E; exact (as_bool_inv _ _ E)|]. intros b _ ->.
         pose proof (implied_sound _ _ _ _ _ _ _ _ Evc) as Hf.
         apply after_phis_ok; auto. destruct b.
-        -- eapply mok_weaken; [eapply IHb; eauto; apply senv_ok_crefine; auto|].
-           intros [o m] Ho. unfold osat in *. cbn [fst] in *. destruct o; auto. apply senv_ok_cjoin_l; auto.
-        -- eapply mok_weaken; [eapply IHb; eauto; apply senv_ok_crefine; auto|].
-           intros [o m] Ho. unfold osat in *. cbn [fst] in *. destruct o; auto. apply senv_ok_cjoin_r; auto.
+        -- eapply mok_weaken_eq; [eapply IHb; eauto; apply senv_ok_crefine; auto|].
+           intros [o m] Eo Ho. unfold osat in *. cbn [fst] in *. destruct o as [s' D'|rv]; auto.
+           destruct (blk_ret ift) eqn:R1.
+           { exfalso. exact (blk_always_returns _ _ _ _ _ _ _ _ _ _ _ R1 Eo). }
+           destruct (blk_ret iff); [exact Ho | apply senv_ok_cjoin_l; auto].
+        -- eapply mok_weaken_eq; [eapply IHb; eauto; apply senv_ok_crefine; auto|].
+           intros [o m] Eo Ho. unfold osat in *. cbn [fst] in *. destruct o as [s' D'|rv]; auto.
+           destruct (blk_ret ift) eqn:R1; [exact Ho|].
+           destruct (blk_ret iff) eqn:R2.
+           { exfalso. exact (blk_always_returns _ _ _ _ _ _ _ _ _ _ _ R2 Eo). }
+           apply senv_ok_cjoin_r; auto.
       * (* while *) rewrite check_while_eq in Hc. cbn zeta in Hc.
         destruct (cleq G (set_phis G ph) && check_phis (set_phis G ph) ph && check_expr R (set_phis G ph) K c) eqn:H1;
           [|discriminate]. bsp.
